@@ -255,8 +255,19 @@ def run(rep, tier, root=None):
     paths = Ip.returns(p2c, [cg, pol, mask])
     gi = lambda key: Rat.atom(Fn("getitem", (cg, key)))
     interp_ = Rat.atom(Fn("map_coordinates", (pol, (gi("cr"), gi("cp")), Rat.const(1), "nearest")))
-    masked = [v for c, v in paths if any(not x.startswith("not") and "mask" in x for x in c)]
-    unmasked = [v for c, v in paths if any(x.startswith("not") and "mask" in x for x in c)]
+    def _mask_on(conds):
+        """True / False: the path is the one taken when a mask is requested / not requested (the decision may be written
+        `mask is not False`, `mask is False`, `mask`, `not mask`; the interpreter records it in its positive spelling)"""
+        for x in conds:
+            if "mask" not in x:
+                continue
+            neg = x.startswith("not")
+            core = (x[3:] if neg else x).strip().strip("()").replace(" ", "")
+            tests_off = core in ("maskisFalse", "mask==False", "maskisNone", "Falseismask")
+            return (neg and tests_off) or (not neg and not tests_off)
+        return None
+    masked = [v for c, v in paths if _mask_on(c) is True]
+    unmasked = [v for c, v in paths if _mask_on(c) is False]
     if len(paths) == 2 and len(masked) == 1 and len(unmasked) == 1:
         check_equal(rep, "A4.render", p2c.fq + "[mask]: interpolation * cpgeom['ap']", masked[0], interp_ * gi("ap"), p2c.where(),
                     what="masked rendering")
@@ -436,7 +447,8 @@ def driver(rep, ix):
         rng = loops[0][3]
         full = ("slice", Rat.const(0), None, None)
         want_val = Rat.atom(Fn("call:" + F("pol2car").fq, (want_pc, Rat.atom(Fn("call:" + F("gkl_sfi").fq, (want_base, lv))), mask)))
-        rep.check(same_value(idx, (lv, full, full)) and op == "=", "A5.driver", mk.fq + ": mode i stored at kl[i, :, :]",
+        rep.check((same_value(idx, (lv, full, full)) or same_value(idx, lv) or same_value(idx, (lv, Ellipsis)) or same_value(idx, (lv, full)))
+                  and op == "=", "A5.driver", mk.fq + ": mode i stored at kl[i, :, :]",
                   "stored with `%s`" % txt, "%s:%d" % (mk.module.relpath, lineno))
         check_equal(rep, "A5.driver", mk.fq + ": kl[i] = pol2car(geometry, gkl_sfi(base, i), mask)", val_, want_val,
                     "%s:%d" % (mk.module.relpath, lineno), what="rendered mode")
